@@ -143,11 +143,54 @@ Fixpoint obs_eqb (a b : list sobs) : bool :=
   | _, _ => false
   end.
 
+(* ---- rewritten history: the server re-issues a (session, serial) with other content ----------------------------
+   Each run has its own world (what the server stands for while that run is made).  The code's defence is
+   Notification::check_deltas: the hashes of the deltas listed when the copy was stored are remembered; a
+   notification listing one of those serials with another hash makes the run fetch the snapshot.  The premise per
+   run, evaluated on the copy the run starts from: the copy is that run's world's content at the stored serial,
+   OR the rewriting is visible (a listed delta's hash differs from the remembered one), OR the session differs.
+   Defined on the raw notification, without the model's functions. *)
+
+Definition mismatch (l : lstate) (nf : notif) : bool :=
+  existsb (fun d => match lookup (di_serial d) (l_dstate l) with
+                    | Some h => negb (di_dig d =? h)
+                    | None => false
+                    end) (nf_deltas nf).
+
+Definition step_premise (w : world) (prev : option lstate) (st : step) : bool :=
+  step_genuine w st &&
+  match prev with
+  | None => true
+  | Some l =>
+      match s_notify st with
+      | NOk nf => is_truth w (l_session l) (l_serial l) (l_content l) || mismatch l nf
+                  || negb (nf_session nf =? l_session l)
+      | N304 => is_truth w (l_session l) (l_serial l) (l_content l)     (* 304: the server says nothing changed *)
+      | _ => true
+      end
+  end.
+
+(* one (world, run) pair per step *)
+Fixpoint steps_okb2 (prev : option lstate) (wsts : list (world * step)) (os : list sobs) : bool :=
+  match wsts, os with
+  | [], [] => true
+  | (w, st) :: t, o :: os' =>
+      (if step_premise w prev st then step_okb w prev st o else true) && steps_okb2 (o_local o) t os'
+  | _, _ => false
+  end.
+
 (* One correspondence case.  Result codes: 0 the model's runs equal the implementation's and the property holds
    on the implementation's output; 1 the property holds on the implementation's output but the model differs;
-   2 the property fails on the implementation's output. *)
-Record case := { c_cfg : config; c_world : world; c_steps : list step; c_impl : list sobs }.
+   2 the property fails on the implementation's output.  [c_worlds] = [] : one world for all runs (the oracle
+   [spec_okb], whose premise is on the input only); otherwise one world per run (oracle [steps_okb2]). *)
+Record case := { c_cfg : config; c_world : world; c_worlds : list world; c_steps : list step; c_impl : list sobs }.
+
+Definition case_okb (c : case) : bool :=
+  match c_worlds c with
+  | [] => spec_okb (c_world c) (c_steps c) (c_impl c)
+  | ws => Nat.eqb (length ws) (length (c_steps c)) && steps_okb2 None (combine ws (c_steps c)) (c_impl c)
+  end.
 
 Definition check_case (c : case) : N :=
-  if negb (spec_okb (c_world c) (c_steps c) (c_impl c)) then 2
+  if negb (case_okb c) then 2
   else if obs_eqb (model_obs (c_cfg c) (c_steps c)) (c_impl c) then 0 else 1.
